@@ -483,3 +483,66 @@ func TestC04Wiring(t *testing.T) {
 		nt:     func(x *run, _ []seen) bool { return nontrivialC04(x) },
 	}, "histories")
 }
+
+// TestC04Kinds: constructors of every function-value kind, many sharing a
+// signature and a code pointer, each must produce exactly its own services.
+func TestC04Kinds(t *testing.T) {
+	col := evid.New("C04", "function-value-kinds", "configurations made only of plain constructors of four function-value kinds - reflect.MakeFunc, closures created by one noinline generic factory, method values bound to different receivers, instantiations of generic top-level functions - 2-12 of them with identical signatures (same code pointer, different function value) registered under distinct names, with 0-1 dependency, all lifetimes; every identity is resolved from the provider and two scopes; oracle = C04 provenance (each value made by exactly the registered function value, arguments from the right registration) plus C01 counts; non-trivial = >=2 registrations share kind and signature")
+	defer col.Flush()
+	rapid.Check(t, func(rt *rapid.T) {
+		cfg := kit.GenKindsConfig(rt)
+		x, err := startRun(cfg, nil)
+		if err != nil {
+			rt.Fatalf("invalid config: %v", err)
+		}
+		canon := cfg.String()
+		share := map[string]int{}
+		nt := false
+		for i := range cfg.Regs {
+			r := &cfg.Regs[i]
+			k := fmt.Sprintf("%d/%d/%v/%v", r.Kind, r.Outs[0].T, r.Deps, r.HasErr)
+			share[k]++
+			if share[k] >= 2 {
+				nt = true
+			}
+		}
+		labels := []string{}
+		for i := range cfg.Regs {
+			labels = append(labels, fmt.Sprintf("kind:%d", cfg.Regs[i].Kind))
+		}
+		col.Case(nt, canon, canon, dedup(labels)...)
+		if x.Build.Err != nil || x.Build.Panic != nil {
+			rt.Fatalf("VIOLATION C04/builds [kinds]: Build failed for a valid set of constructors: %v %v\n%s", firstLine(x.Build.Err), x.Build.Panic, canon)
+		}
+		x.exec(Op{Kind: "create", Scope: 0, Ctx: 1})
+		x.exec(Op{Kind: "create", Scope: 0, Ctx: 0})
+		for _, id := range x.M.AllIdents() {
+			for tag := 0; tag <= 2; tag++ {
+				x.exec(Op{Kind: "get", Scope: tag, Ident: id})
+			}
+		}
+		x.exec(Op{Kind: "pclose"})
+		obs, problems := x.observations()
+		f := x.unexpectedErrors("C04")
+		if f == nil {
+			f = x.checkC04(obs, problems)
+		}
+		if f == nil {
+			if g := x.checkC01(obs); g != nil {
+				f = fail("C04", "right-constructor", "via-C01/"+g.Sig, "%s", g.Msg)
+			}
+		}
+		if f == nil {
+			if g := x.checkC02(obs); g != nil {
+				f = fail("C04", "right-constructor", "via-C02/"+g.Sig, "%s", g.Msg)
+			}
+		}
+		if f != nil {
+			if isKnown(f) {
+				col.Excluded()
+				return
+			}
+			rt.Fatalf("VIOLATION %s\n%s", f, canon)
+		}
+	})
+}
